@@ -86,6 +86,9 @@ func effectScan(c *Check, roots []string, readOnlyExt map[string]bool) (bad []st
 	var ptrWrites []pw
 	for _, fs := range fns {
 		n++
+		if ab, _ := appendAliasing(c, fs); len(ab) > 0 {
+			bad = append(bad, ab...)
+		}
 		info := fs.Pkg.TypesInfo
 		name := c.P.abbrev(fs.Obj.FullName())
 		var recv types.Object
@@ -284,4 +287,185 @@ func paramIndex(fs *FuncSrc, v *types.Var) int {
 		}
 	}
 	return -1
+}
+
+// appendAliasing: every append in fs grows a slice whose backing array was
+// allocated in fs (declared nil, made, a literal, or the result of such an
+// append). Appending to x[:0] or x[:n] of a parameter, field, map element or
+// assertion result writes into storage the caller still sees.
+func appendAliasing(c *Check, fs *FuncSrc) (bad []string, n int) {
+	info := fs.Pkg.TypesInfo
+	params := map[types.Object]bool{}
+	for _, f := range fs.Decl.Type.Params.List {
+		for _, nm := range f.Names {
+			params[info.Defs[nm]] = true
+		}
+	}
+	if fs.Decl.Recv != nil {
+		for _, f := range fs.Decl.Recv.List {
+			for _, nm := range f.Names {
+				params[info.Defs[nm]] = true
+			}
+		}
+	}
+	// assignments per local
+	defs := map[types.Object][]ast.Expr{}
+	declared := map[types.Object]bool{}
+	ast.Inspect(fs.Decl.Body, func(nd ast.Node) bool {
+		switch x := nd.(type) {
+		case *ast.AssignStmt:
+			for i, l := range x.Lhs {
+				id, ok := l.(*ast.Ident)
+				if !ok {
+					continue
+				}
+				o := info.Defs[id]
+				if o == nil {
+					o = info.Uses[id]
+				}
+				if o == nil {
+					continue
+				}
+				if len(x.Rhs) == len(x.Lhs) {
+					defs[o] = append(defs[o], x.Rhs[i])
+				} else {
+					defs[o] = append(defs[o], nil) // multi-value: unknown origin
+				}
+			}
+		case *ast.ValueSpec:
+			for i, nm := range x.Names {
+				o := info.Defs[nm]
+				if i < len(x.Values) {
+					defs[o] = append(defs[o], x.Values[i])
+				} else if len(x.Values) == 0 {
+					declared[o] = true
+				} else {
+					defs[o] = append(defs[o], nil)
+				}
+			}
+		case *ast.RangeStmt:
+			for _, e := range []ast.Expr{x.Key, x.Value} {
+				if id, ok := e.(*ast.Ident); ok {
+					if o := info.Defs[id]; o != nil {
+						defs[o] = append(defs[o], nil)
+					}
+				}
+			}
+		}
+		return true
+	})
+	isAppend := func(e ast.Expr) *ast.CallExpr {
+		call, ok := ast.Unparen(e).(*ast.CallExpr)
+		if !ok {
+			return nil
+		}
+		id, ok := call.Fun.(*ast.Ident)
+		if !ok {
+			return nil
+		}
+		if b, ok := info.Uses[id].(*types.Builtin); ok && b.Name() == "append" {
+			return call
+		}
+		return nil
+	}
+	fresh := map[types.Object]bool{}
+	var freshExpr func(e ast.Expr) bool
+	freshExpr = func(e ast.Expr) bool {
+		if e == nil {
+			return false
+		}
+		e = ast.Unparen(e)
+		if tv, ok := info.Types[e]; ok && tv.IsNil() {
+			return true
+		}
+		switch x := e.(type) {
+		case *ast.CompositeLit:
+			return true
+		case *ast.Ident:
+			return fresh[info.Uses[x]]
+		case *ast.CallExpr:
+			if ap := isAppend(x); ap != nil {
+				return freshExpr(ap.Args[0])
+			}
+			if id, ok := x.Fun.(*ast.Ident); ok {
+				if b, ok := info.Uses[id].(*types.Builtin); ok && b.Name() == "make" {
+					return true
+				}
+			}
+			if tv, ok := info.Types[x.Fun]; ok && tv.IsType() && len(x.Args) == 1 {
+				return freshExpr(x.Args[0]) // conversion
+			}
+			return false
+		case *ast.SliceExpr:
+			return freshExpr(x.X)
+		}
+		return false
+	}
+	// fixpoint: a local is fresh if it is not a parameter and every assignment is fresh
+	for changed := true; changed; {
+		changed = false
+		for o, ds := range defs {
+			if fresh[o] || params[o] {
+				continue
+			}
+			ok := true
+			for _, d := range ds {
+				// optimistic on self-reference: x = append(x, ...)
+				fresh[o] = true
+				if !freshExpr(d) {
+					ok = false
+				}
+				fresh[o] = false
+			}
+			if ok {
+				fresh[o] = true
+				changed = true
+			}
+		}
+		for o := range declared {
+			if !fresh[o] && len(defs[o]) == 0 {
+				fresh[o] = true
+				changed = true
+			}
+		}
+	}
+	// a local declared without value and later assigned: fresh iff all assignments are
+	for o := range declared {
+		if fresh[o] {
+			continue
+		}
+		ok := true
+		fresh[o] = true
+		for _, d := range defs[o] {
+			if !freshExpr(d) {
+				ok = false
+			}
+		}
+		fresh[o] = ok
+	}
+	ast.Inspect(fs.Decl.Body, func(nd ast.Node) bool {
+		if ap := isAppend2(info, nd); ap != nil {
+			n++
+			if !freshExpr(ap.Args[0]) {
+				bad = append(bad, c.P.pos(ap.Pos())+": "+c.P.abbrev(fs.Obj.FullName())+" appends to "+types.ExprString(ap.Args[0])+", whose backing array may be shared with data the caller still holds")
+			}
+		}
+		return true
+	})
+	return bad, n
+}
+
+func isAppend2(info *types.Info, nd ast.Node) *ast.CallExpr {
+	call, ok := nd.(*ast.CallExpr)
+	if !ok {
+		return nil
+	}
+	id, ok := call.Fun.(*ast.Ident)
+	if !ok {
+		return nil
+	}
+	if b, ok := info.Uses[id].(*types.Builtin); ok && b.Name() == "append" {
+		return call
+	}
+	return nil
 }
